@@ -1,5 +1,5 @@
 """C17 - serialisation is transparent and deserialisation yields a fresh sole owner."""
-from .. import atomics, balance, cfg, core
+from .. import atomics, balance, cfg, core, model
 from ..effects import ZERO, vget
 from ..facts import operand_local, operand_place
 from . import c03, c04, c14
@@ -151,7 +151,33 @@ def run(ctx, rep):
                         # its Result is consumed only by Result::map with a fresh-sole-owner constructor, whose result is returned
                         rl = t["dest"]["l"]
                         cons = sole_consumer(b, rl)
-                        if cons is None or atomics.callee_of(cons[1]) != "<core::result::Result<T, E>>::map" or cons[2] != 0:
+                        if cons is not None and cons[2] == 0 and model.classify(atomics.callee_of(cons[1]) or "")[0] == model.TRY_BRANCH:
+                            # `Ok(Ctor(T::deserialize(d)?))`: Err goes back through from_residual at the very same error type
+                            # (identity `From`), Ok's payload feeds one fresh-sole-owner constructor whose result is wrapped in `Ok`
+                            bt = cons[1]
+                            rest = [(bj, t3) for bj, t3 in B.calls() if t3 is not t and t3 is not bt]
+                            fr = [t3 for _bj, t3 in rest if model.classify(atomics.callee_of(t3) or "")[0] == model.FROM_RESIDUAL]
+                            ctors = [t3 for _bj, t3 in rest if atomics.callee_of(t3) in F.bodies and c03.is_new_class(E, atomics.callee_of(t3))]
+                            other = [t3 for _bj, t3 in rest if t3 not in fr and t3 not in ctors]
+                            if len(fr) != 1 or len(ctors) != 1 or other:
+                                ok, why = False, "with `?` the only further calls may be one from_residual and one fresh-sole-owner constructor; found %s" % [atomics.callee_of(t3) for _bj, t3 in rest]
+                            else:
+                                r = fr[0].get("resolved")
+                                targs = [a["t"] for a in (r["args"] if isinstance(r, dict) else fr[0].get("callee_args") or []) if "t" in a]
+                                if fr[0]["dest"]["l"] != 0 or fr[0]["dest"]["p"] or len(targs) != 3 or targs[1] != targs[2]:
+                                    ok, why = False, "the error is converted on its way out (from_residual between different error types): it must be passed through unchanged"
+                                ao = B.origin(ctors[0]["args"][0]) if ctors[0]["args"] else {}
+                                if not (ao.get("kind") == "place" and ao["place"]["l"] == bt["dest"]["l"]):
+                                    ok, why = False, "the constructor's argument is not the value the payload's deserializer produced"
+                                wrapped = False
+                                for bl in b["blocks"]:
+                                    for st in bl["stmts"]:
+                                        if st["k"] == "assign" and st["lhs"]["l"] == 0 and not st["lhs"]["p"] and st["rv"]["k"] == "agg" and st["rv"].get("adt") == "core::result::Result" and st["rv"].get("variant") == "Ok":
+                                            oo = B.origin(st["rv"]["ops"][0])
+                                            wrapped = oo.get("kind") == "call" and oo["term"] is ctors[0]
+                                if not wrapped:
+                                    ok, why = False, "the constructed handle is not what is returned in `Ok`"
+                        elif cons is None or atomics.callee_of(cons[1]) != "<core::result::Result<T, E>>::map" or cons[2] != 0:
                             ok, why = False, "the payload deserializer's Result is consumed by something other than a single `Result::map` (which leaves Err untouched): %s" % (atomics.callee_of(cons[1]) if cons else "several uses")
                         else:
                             mt = cons[1]
@@ -198,9 +224,46 @@ def run(ctx, rep):
                 rep.bad("R-SERDE", ik, "%s writes into the value of a handle that may be shared (line %s): deserialisation must yield a fresh sole owner, never change what other owners see" % (b["key"], bad[0][1]["line"]), F.loc(b, bad[0][1]), tag)
             else:
                 rep.ok("R-SERDE", ik, cfg=tag)
+    # the impls exist for exactly the payloads that have the trait themselves: `T: Serialize` / `T: Deserialize<'de>` with the
+    # impl's own `'de` (a stronger bound such as `DeserializeOwned` silently drops zero-copy payloads like `&'de str`; a weaker
+    # one could not delegate)
+    for tag, F, E in ctx.each():
+        if not any("feature=serde" == c for c in F.raw["cfg"]):
+            continue
+        for im in F.impls:
+            tr = im.get("trait")
+            if tr not in (SER, DE) or F.handle_name(im["self_ty"]) not in ("Arc", "UniqueArc"):
+                continue
+            ik = "bounds/%s for %s" % (tr.split("::")[-1], F.ts(im["self_ty"]))
+            st = F.ty(im["self_ty"])
+            params = [F.ty(a["t"]) for a in st.get("args", []) if "t" in a]
+            if len(params) != 1 or params[0]["k"] != "param":
+                rep.bad("R-SERDE", ik, "the impl is not on the fully generic handle (%s)" % st["s"], None, tag)
+                continue
+            pname = params[0]["name"]
+            got = []
+            for p in im["preds"]:
+                if p["kind"] != "trait" or p["trait"] in ("core::marker::Sized",):
+                    if p["kind"] in ("type_outlives", "region_outlives", "projection", "other"):
+                        got.append(p["s"])
+                    continue
+                got.append(p["s"])
+            want_trait = tr
+            exact = [p for p in im["preds"] if p["kind"] == "trait" and p["trait"] == want_trait and F.ty(p["self"])["k"] == "param" and F.ty(p["self"])["name"] == pname]
+            extra = [x for x in got if not any(x == p["s"] for p in exact)]
+            ok = len(exact) == 1 and not extra
+            if ok and tr == DE:
+                # the payload's lifetime argument is the impl's own `'de`
+                ia = [a.get("r") for a in im.get("trait_args", []) if "r" in a]
+                pa = [a.get("r") for a in exact[0].get("args", []) if "r" in a]
+                ok = bool(ia) and ia == pa
+            if ok:
+                rep.ok("R-SERDE", ik, exact[0]["s"], cfg=tag)
+            else:
+                rep.bad("R-SERDE", ik, "the impl's bounds are %s; required exactly `%s: %s%s`: with a different bound some payloads that (de)serialise on their own lose the handle's impl (e.g. `DeserializeOwned` excludes borrowed payloads such as `&'de str`), or the delegation is not to the payload's own impl" % (got, pname, tr.split("::")[-1], "<'de>" if tr == DE else ""), "%s:%s" % (im["span"]["file"], im["span"]["line"]), tag)
     if seen_cfg == 0:
         rep.bad("ANCHOR-LOST", "R-SERDE/configurations", "no analysed configuration enables the serde feature (it is on by default)", None, None)
-    rep.floor("R-SERDE", 4, "serialize and deserialize for Arc and UniqueArc")
+    rep.floor("R-SERDE", 8, "serialize and deserialize for Arc and UniqueArc + the four impl headers")
 
 
 def main(argv):
